@@ -112,6 +112,47 @@ func c09Flood(c *core.Case, ms *mesh, maxDeliveries int, check bool) c09Result {
 				c09Hygiene(c, ms, fl, an, seenPath, perAnn, pathBound)
 			}
 		}
+		if ms.par && c.Chance("pair", 1, 5) {
+			// Another frame for the same router arrives at the same moment: the two
+			// are handled by two of its workers, one held at a generated point.
+			var cand []int
+			for k, f2 := range vn.Queue {
+				if k != i && f2.To == fl.To {
+					cand = append(cand, k)
+				}
+			}
+			if len(cand) > 0 {
+				j := cand[c.Pick("pair.other", len(cand))]
+				f2 := vn.Queue[j]
+				if check {
+					if an := parseAnnouncement(f2.Data); an != nil {
+						c09Hygiene(c, ms, f2, an, seenPath, perAnn, pathBound)
+					}
+				}
+				if j > i {
+					vn.Drop(j)
+					vn.Drop(i)
+				} else {
+					vn.Drop(i)
+					vn.Drop(j)
+				}
+				if at := core.OneOf(c, "pair.point", "", "instance.Identity", "instance.State", "instance.Peering", "instance.Switch", "instance.RoutingTable"); at == "" {
+					fl.To.Gate.Arm(c.Int("pair.any-call", 0, 20))
+				} else {
+					fl.To.Gate.ArmAt(at, c.Uniform("pair.call", 0, 6))
+				}
+				r, _, ok := vn.InjectPar(fl.To, []*vnet.VLink{fl.Link, f2.Link}, [][]byte{fl.Data, f2.Data})
+				res.deliveries += 2
+				if r.Panicked {
+					c.Fatalf("worker panic while two workers of %s handled frames from %s and %s at once (held at %q): %v", fl.To.Name, fl.From.Name, f2.From.Name, fl.To.Gate.Point, vn.Panics)
+				}
+				if !ok {
+					c.Fatalf("two workers of %s did not finish handling two frames at once (held at %q)", fl.To.Name, fl.To.Gate.Point)
+				}
+				c.Class("two-frames-for-one-router-handled-at-once")
+				continue
+			}
+		}
 		_, r := vn.Deliver(i)
 		res.deliveries++
 		if r.Panicked {
@@ -308,6 +349,7 @@ func c09Case(c *core.Case, maxN int) {
 	o := meshOpts{infoClass: c.Weighted("info", 3, 3, 4, 4), spread: c.Bool("spread"), bigLabels: c.Bool("biglabels")}
 	ms := buildMesh(c, t, o)
 	c.Note("topology %s info=%d spread=%v biglabels=%v", t, o.infoClass, o.spread, o.bigLabels)
+	ms.par = c.Chance("workers-in-parallel", 1, 3)
 	res := c09Flood(c, ms, 400_000, true)
 	c09Reach(c, ms, t.n <= 10 || c.Chance("push.big", 1, 3))
 	diam := t.diameter()
